@@ -125,7 +125,7 @@ Section Proofs.
 
   (* ... which is gomatrixserverlib.Allowed when the provider holds events of one room *)
   Theorem one_shot9_is_allowed9 p e :
-    one_room f (p_auths p) = true ->
+    valid9 f (p_auths p) = true ->
     one_shot9 sig_of f (p, e) = allowed9 sig_of f e (p_auths p).
   Proof.
     intro R. rewrite one_shot9_is_abs9. unfold allowed9, abs_fixed, abs9.
@@ -135,10 +135,10 @@ Section Proofs.
 
   (* C07's allowed_model is allowed9 except on member events with an empty third-party-invite token *)
   Theorem allowed9_is_allowed_model e auths :
-    empty_token_invite e = false ->
+    empty_token_invite e = false -> valid9 f auths = one_room f auths ->
     allowed9 sig_of f e auths = decide_model (abs (sig_of e) f e auths).
   Proof.
-    intro T. unfold allowed9, abs_fixed, abs9_core. rewrite T. reflexivity.
+    intros T VR. unfold allowed9, abs_fixed, abs9_core. rewrite T, VR. reflexivity.
   Qed.
 
   (* checker_reuse_transparent over the auth model *)
@@ -153,7 +153,7 @@ Section Proofs.
 
   Corollary run_checker9_is_allowed9 (ev_of : N -> json) p0 steps :
     p_wf ev_of p0 -> (forall pe, In pe steps -> p_wf ev_of (fst pe)) ->
-    (forall pe, In pe steps -> one_room f (p_auths (fst pe)) = true) ->
+    (forall pe, In pe steps -> valid9 f (p_auths (fst pe)) = true) ->
     run_checker9 sig_of f (new_context9 f p0) steps =
     map (fun pe => allowed9 sig_of f (snd pe) (p_auths (fst pe))) steps.
   Proof.
